@@ -230,7 +230,7 @@ def run_case(spec):
             with Recorder(Fc) as rr:
                 fa2, _ = cvmon.execute(case, wd, paths, out='cmp.fasta', skip_failed=True)
             ref_out = {s for _, s in fa2}
-            for t in spec.get('cli_threads', (1, 2, 3)):
+            for t in spec.get('cli_threads', (2, 3)):
                 outp = f'{wd}/cli{t}.fasta'
                 argv = ['callVariant', '-i'] + paths + ['-g', f'{wd}/genome.fasta', '-a', f'{wd}/annotation.gtf', '-p',
                                                          f'{wd}/proteome.fasta', '-o', outp, '--threads', str(t), '--skip-failed',
@@ -389,11 +389,11 @@ def natural_case(spec):
 def check(rep, tier, seed, specs=None, n_override=None):
     quick = tier == 'quick'
     if specs is None:
-        n = n_override or (48 if quick else 400)
+        n = n_override or (32 if quick else 400)
         specs = [{'seed': common.hash64('c07', 'fixed' if i < n // 2 else seed, i), 'max_faults': 2 if quick else 3,
-                  'max_sets': 40 if quick else 150, 'cli': (i % 6 == 0)} for i in range(n)]
-        nn = (n_override or (96 if quick else 3000))
-        specs += [{'kind': 'natural', 'seed': common.hash64('c07n', 'fixed' if i < nn // 2 else seed, i), 'cli': i % 6 == 0}
+                  'max_sets': 30 if quick else 150, 'cli': (i % 6 == 0)} for i in range(n)]
+        nn = (n_override or (64 if quick else 3000))
+        specs += [{'kind': 'natural', 'seed': common.hash64('c07n', 'fixed' if i < nn // 2 else seed, i), 'cli': i % 8 == 0}
                   for i in range(nn)]
     results, lost = common.shard_run('c07', specs, timeout_s=1800 if quick else 8 * 3600)
     rep.rule = ('inputs with 2-3 transcripts carrying small variants (main unit), 1-2 fusions as donor and 1-2 circRNAs (<= 14 units); the '
@@ -401,7 +401,7 @@ def check(rep, tier, seed, specs=None, n_override=None):
                 'fault and every pair (triples in thorough; capped per case): with --skip-failed the run must complete, the tally must count the '
                 'failing transcripts per kind, every surviving unit must return the same peptides, surviving peptides must be present, peptides only '
                 'the failed units produce must be absent; without --skip-failed every single fault must abort and leave no FASTA. A sample of faults '
-                '(1-2 failing units, preferably not in the last transcript) is repeated through the CLI with --threads 1, 2 and 3 (failpoints via '
+                '(1-2 failing units, preferably not in the last transcript) is repeated through the CLI with --threads 2 and 3 (failpoints via '
                 'environment inside ppft workers): exit status, FASTA and the printed tally are checked. '
                 'Natural data faults: one transcript gets a record that invalidates its whole variant series (small variant beyond the gene end; '
                 'fusion whose acceptor position is beyond the acceptor gene): with --skip-failed the run completes, tallies one invalid transcript, '
